@@ -114,6 +114,26 @@ func (l *c10Live) committable() bool {
 	return n >= l.meta.MinISR
 }
 
+// quorumReady reports whether, with the durable quorum log, enough unpaused
+// voters are already at the leader's log end so that one exchange round can
+// commit (a voter that first needs a repair does not vote in that round).
+func (l *c10Live) quorumReady() bool {
+	if l.w.mode != "quorum" {
+		return true
+	}
+	target := l.leaderLEO()
+	n := 1
+	for _, f := range l.followers() {
+		if l.paused[f] {
+			continue
+		}
+		if st, _, err := l.hub.rawLoad(f); err == nil && st.LEO >= target {
+			n++
+		}
+	}
+	return n >= l.meta.MinISR && len(l.pending) == 0
+}
+
 func (l *c10Live) leaderLEO() uint64 {
 	st, _, err := l.hub.rawLoad(l.meta.Leader)
 	if err != nil {
@@ -346,7 +366,12 @@ func (l *c10Live) timed(kind string, fn func()) {
 func (l *c10Live) abort(reason string) {
 	if !l.aborted {
 		l.aborted = true
-		l.r.Inconclusive(reason)
+		l.r.Inconclusive(fmt.Sprintf("%s (mode %s, leader %d, isr %v, minISR %d)", reason, l.w.mode, l.meta.Leader, l.meta.ISR, l.meta.MinISR))
+		h := l.history()
+		if len(h) > 30 {
+			h = h[len(h)-30:]
+		}
+		l.r.Note("live.abort."+l.meta.ID.ID, map[string]any{"reason": reason, "history_tail": h, "events_tail": l.hub.tail(30)})
 	}
 }
 
@@ -377,7 +402,7 @@ func (l *c10Live) appendOne() {
 	}()
 	if l.committable() {
 		wait := c10LiveOpTimeout
-		stuckExpected := l.hub.leaderTrimmedAboveFollower.Load()
+		stuckExpected := l.hub.leaderTrimmedAboveFollower.Load() || !l.quorumReady()
 		if stuckExpected {
 			wait = 2 * time.Second
 		}
@@ -392,10 +417,12 @@ func (l *c10Live) appendOne() {
 		case <-time.After(wait):
 			l.pending = append(l.pending, pend)
 			if stuckExpected {
-				// consequence of the trim already reported for this case: the
-				// follower cannot be repaired from the trimmed leader log.
-				l.r.Count("live.append_stuck_after_reported_leader_trim", 1)
-				l.logf("append id=%d not committed within 2s (follower cannot catch up after the reported leader trim)", id)
+				// either a consequence of the trim already reported for this
+				// case (the follower cannot be repaired from the trimmed leader
+				// log) or, with the quorum log, the only reachable voter needs a
+				// repair first and the round waits for the held one: not judged.
+				l.r.Count("live.append_left_pending_commit_not_expected", 1)
+				l.logf("append id=%d not committed within 2s (commit not expected right now), left in flight", id)
 			} else {
 				l.abort("live: committable append did not return within the watchdog")
 			}
@@ -442,12 +469,20 @@ func (l *c10Live) drainPending() {
 	}
 	keep := l.pending[:0]
 	for _, p := range l.pending {
+		wait := c10LiveOpTimeout
+		if l.w.mode == "quorum" {
+			wait = 3 * time.Second // a round that lost its voters only resolves at the exchange timeout
+		}
 		select {
 		case <-p.done:
 			l.logf("in-flight append id=%d -> seq=%d err=%v", p.id, p.res.MessageSeq, p.err)
-		case <-time.After(c10LiveOpTimeout):
+		case <-time.After(wait):
 			keep = append(keep, p)
-			l.abort("live: held-back append did not complete after resume within the watchdog")
+			if l.w.mode == "quorum" {
+				l.r.Count("live.append_still_pending_after_resume", 1)
+			} else {
+				l.abort("live: held-back append did not complete after resume within the watchdog")
+			}
 		}
 	}
 	l.pending = keep
@@ -583,6 +618,17 @@ func (l *c10Live) stepRetention() {
 	}
 	if through > leo {
 		through = leo // memory double: never beyond the leader's log end (see rt_store_test.go)
+	}
+	if l.w.mode == "quorum" && node != l.meta.Leader {
+		// adopting beyond a follower's own log end moves its LEO over records
+		// it never stored; the exact-append path then conflicts forever (a
+		// liveness matter outside C10), so a quorum-mode follower only adopts
+		// what it holds.
+		if st, _, err := l.hub.rawLoad(node); err != nil || st.LEO == 0 {
+			return
+		} else if through > st.LEO {
+			through = st.LEO
+		}
 	}
 	opts := ch.RetentionApplyOptions{}
 	if l.rng.IntN(3) == 0 {
@@ -890,7 +936,7 @@ func TestVerifC10Live(t *testing.T) {
 	r.SetRule("Per case a fresh 3-node service.New cluster (memory stores behind the recording wrapper, random leader, ISR of 3 or 2, MinISR 1..3) runs 20-35 director steps: appends (22% SyncOnce; left in flight when paused followers make the ISR uncommittable, which builds an uncommitted tail), pause/resume of a follower's ApplyFollower (sometimes from the very start), ApplyMeta with RetentionThroughSeq forward/backward/repeated (some nodes miss an update), ApplyRetentionBoundary on leader/followers at the meta boundary, at earlier boundaries or at arbitrary sequences with random trim caps, RetentionView sweeps, and ReadCommittedBatch (1-3 requests around floor/HW/LEO/0/maxuint64, forward/reverse) through a channels.Service on the leader. Every read item is one evaluation; every physical trim is judged inside the store call. Non-trivial = case has a regressing boundary update, a physical trim blocked by min_isr_lag or checkpoint_lag, and a reverse read that crossed the retention floor. Distinct = topology + step/read shape string.")
 	r.Assume("One leader epoch per case: follower logs are never truncated, so durable LEOs only grow and a sample taken after an event is an upper bound of the value during it.")
 	r.Assume("The memory store double is never driven beyond the leader's log end (holes make later records unreadable in the double).")
-	n := r.N(60, 700)
+	n := r.N(120, 1600)
 	var w *c10LiveWorld
 	defer func() {
 		if w != nil {
